@@ -382,3 +382,45 @@ func LemmaFirstId(ruleId string, lines [][]byte, i int) {
 //@   loop 0 invariant 0 <= rangeIndex0 && rangeIndex0 <= len(lines) && implies(rangeIndex0 > 0, index == rangeIndex0-1) && implies(rangeIndex0 == 0, index == 0)
 //@   loop 0 invariant implies(!foundRule, SpecFirstId(ruleId, lines, 0) >= rangeIndex0 && chainCount == 0)
 //@   loop 0 invariant implies(foundRule, SpecFirstId(ruleId, lines, 0) < rangeIndex0 && chainOffset != 0 && chainCount < chainOffset && chainCount == SpecCountSec(lines, SpecFirstId(ruleId, lines, 0)+1, rangeIndex0))
+
+// readCurrentRegex: same addressing as updateRegex (same specification function), and the
+// operand returned is group 2 of the same pattern on that line.
+//@ contract readCurrentRegex
+//@   tags C12 C11
+//@   opt termination C12
+//@   results r
+//@   requires crs-layout: !SpecIsIdLine(ruleId, OpaqueSplitNL(fileContent(filePath))[0])
+//@   use entry LemmaFirstId(ruleId, OpaqueSplitNL(fileContent(filePath)), 0)
+//@   ensures[C12,C15] reads-only: fsWrites() == old(fsWrites())
+//@   ensures addressed-line: SpecIsTarget(ruleId, chainOffset, OpaqueSplitNL(fileContent(filePath)), index)
+//@   ensures line-has-rx-operand: reMatch(regex.RuleRxRegex, string(OpaqueSplitNL(fileContent(filePath))[index]))
+//@   ensures operand: r == reGroup(regex.RuleRxRegex, string(OpaqueSplitNL(fileContent(filePath))[index]), 2)
+//@   loop 0 invariant 0 <= rangeIndex0 && rangeIndex0 <= len(lines) && implies(rangeIndex0 > 0, index == rangeIndex0-1) && implies(rangeIndex0 == 0, index == 0)
+//@   loop 0 invariant implies(!foundRule, SpecFirstId(ruleId, lines, 0) >= rangeIndex0 && chainCount == 0)
+//@   loop 0 invariant implies(foundRule, SpecFirstId(ruleId, lines, 0) < rangeIndex0 && chainOffset != 0 && chainCount < chainOffset && chainCount == SpecCountSec(lines, SpecFirstId(ruleId, lines, 0)+1, rangeIndex0))
+
+// compareRegex: the verdict is plain byte equality; in GitHub mode nothing but the error
+// distinguishes the outcomes.
+//@ contract compareRegex
+//@   tags C12
+//@   safety none
+//@   results r
+//@   ensures verdict: (r == nil) == (currentRegex == generatedRegex)
+
+// ---- rule arguments (C18) -------------------------------------------------------------
+// parseRuleId: NNNNNN[-chainK][.ra] resolves to id NNNNNN, file NNNNNN[-chainK].ra and
+// offset K (0 when absent); K above 255 and every other shape are rejected and leave the
+// previously resolved id / file name / offset untouched. The narrowing conversion to uint8
+// never changes the value (conv-range obligation).
+//@ contract parseRuleId
+//@   tags C18
+//@   opt conv-range C18 C16
+//@   results err
+//@   modifies ruleValues
+//@   ensures[C18,C16] rejects-non-matching: implies(!reMatch(regex.RuleIdFileNameRegex, idAndChainOffset), err != nil)
+//@   ensures[C18,C16] rejects-large-offset: implies(reMatch(regex.RuleIdFileNameRegex, idAndChainOffset) && len(reGroup(regex.RuleIdFileNameRegex, idAndChainOffset, 2)) > 0 && !(utils.SpecAllDigits(reGroup(regex.RuleIdFileNameRegex, idAndChainOffset, 2)) && utils.OpaqueDec(reGroup(regex.RuleIdFileNameRegex, idAndChainOffset, 2)) <= 255), err != nil)
+//@   ensures[C18] accepts: implies(reMatch(regex.RuleIdFileNameRegex, idAndChainOffset) && (len(reGroup(regex.RuleIdFileNameRegex, idAndChainOffset, 2)) == 0 || (utils.SpecAllDigits(reGroup(regex.RuleIdFileNameRegex, idAndChainOffset, 2)) && utils.OpaqueDec(reGroup(regex.RuleIdFileNameRegex, idAndChainOffset, 2)) <= 255)), err == nil)
+//@   ensures[C18] id: implies(err == nil, ruleValues.id == reGroup(regex.RuleIdFileNameRegex, idAndChainOffset, 1))
+//@   ensures[C18] offset: implies(err == nil, ruleValues.chainOffset == ite(len(reGroup(regex.RuleIdFileNameRegex, idAndChainOffset, 2)) == 0, 0, utils.OpaqueDec(reGroup(regex.RuleIdFileNameRegex, idAndChainOffset, 2))))
+//@   ensures[C18] file-name: implies(err == nil, ruleValues.fileName == ite(utils.SpecHasSuffix(reGroup(regex.RuleIdFileNameRegex, idAndChainOffset, 0), ".ra"), reGroup(regex.RuleIdFileNameRegex, idAndChainOffset, 0), reGroup(regex.RuleIdFileNameRegex, idAndChainOffset, 0)+".ra"))
+//@   ensures[C18,C16] failure-keeps-values: implies(err != nil, ruleValues.id == old(ruleValues.id) && ruleValues.fileName == old(ruleValues.fileName) && ruleValues.chainOffset == old(ruleValues.chainOffset))
